@@ -79,6 +79,7 @@ MC_INV = ["RuleHolds", "ClosedOnce", "SourceClosed", "Quiesced", "AtEOFComplete"
 
 
 def mc_cfg(consts):
+    consts = dict({"SplitCount": False}, **consts)
     return cfg_consts(consts) + "SPECIFICATION Spec\n" + "".join("INVARIANT %s\n" % i for i in MC_INV)
 
 
@@ -92,7 +93,7 @@ def model_check(shapes, consts, *, workers=4, timeout=600, simulate=None, depth=
 # ------------------------------------------------------------------------------------------------ cases
 
 def gen_seq_cases(shapes, consts, *, num, depth, seed, timeout=300, workers=2):
-    cfg = cfg_consts(consts) + "INIT SInit\nNEXT SNext\nINVARIANT Emit\nCHECK_DEADLOCK FALSE\n"
+    cfg = cfg_consts(dict({"SplitCount": False}, **consts)) + "INIT SInit\nNEXT SNext\nINVARIANT Emit\nCHECK_DEADLOCK FALSE\n"
     run = vlib.tlc("StreamsSeq", "seq.cfg", files={"seq.cfg": cfg, "trees.ndjson": trees_file(shapes)}, workers=workers, timeout=timeout,
                    simulate="num=%d" % num, depth=depth, seed=seed)
     vlib.tlc_must_pass(run, "sequential history generation")
@@ -246,6 +247,17 @@ def array_alias_cases(rnd, reps=2):
         for r in range(reps):
             out.append({"id": "aa-%s-c%d" % (name, r), "mode": "conc", "shape": "arrayalias", "tree": tree, "ops": [],
                         "seed": rnd.randrange(1 << 30), "pclose": 0})
+    return out
+
+
+def burst_cases(rounds, prefix="b"):
+    """Barrier driver: Pipe(1) -> Copy(n), n in 2..4; per round every copy is closed by its own goroutine, all released together; then the
+    writer sends once.  One `burst` line per round, judged by StreamsObs (ObsBurst)."""
+    out = []
+    for n in (2, 3, 4):
+        tree = [_node("pipe", cap=1, items=[11]), _node("copy", src=[1], n=n)] + [_node("child", src=[2], idx=i) for i in range(n)]
+        out.append({"id": "%s-copy%d" % (prefix, n), "mode": "burst", "shape": "burst-copy%d" % n, "tree": tree, "ops": [], "seed": 0, "pclose": 0,
+                    "rounds": rounds})
     return out
 
 
